@@ -1,7 +1,8 @@
 /-
   C01 — Cell content survives save and reload.
 
-  Model (of the code AS FIXED by fix_1 … fix_4): `Umya/Model/Xml.lean` (quick-xml escaping, unescaping,
+  Model (of the code AS FIXED by fix_1 … fix_6; fix 5: a rich text cached under a formula is a shared-string
+  item; fix 6: an unresolved lazy value is written as the typed value it stands for): `Umya/Model/Xml.lean` (quick-xml escaping, unescaping,
   text events and trimming), `Umya/Model/Num.lean` (numbers as opaque tokens), `Umya/Model/CellXml.lean`
   (typed values, `Cell::write_to`, `Cell::set_attributes`, the shared-string part, the package as facts),
   `Umya/Model/InternC01.lean` (find-or-append), and the row loop of C10 (`Umya/Model/Sheet.lean`).
@@ -54,21 +55,36 @@ theorem C01_trimmed_read_fails : ¬ (readText true (partialEscape [' ', 'x', ' '
 
 /-! ### one cell -/
 
-/-- For every cell of every kind — blank, text, rich text (≥ 1 run), number, boolean, error —, with or
-    without a formula (any formula text), styled or not, anywhere in the 16384 × 1048576 grid, and for
-    every state of the string table: a blank unstyled cell is not written and changes nothing; any other
-    cell is written as exactly one `<c>` (the table only grows, by well-formed items), and the reader
-    turns that `<c>` back into the SAME cell — coordinate, kind, value (text / runs / number token /
-    boolean / error code), formula text, styled flag — against any string table that extends the
-    writer's (i.e. whatever later cells register).  `cellOK` excludes exactly: an unresolved lazy value,
-    a rich text with zero runs, a rich text under a formula (see the `_fails` theorems). -/
+/-- For every cell of every kind — blank, text, rich text (≥ 1 run), number, boolean, error, or a value stored
+    with `set_value_lazy` and never resolved —, with or without a formula (any formula text; also over a rich
+    text), styled or not, anywhere in the 16384 × 1048576 grid, and for every state of the string table: a cell
+    that is blank and unstyled (once its value is resolved) is not written and changes nothing; any other cell is
+    written as exactly one `<c>` (the table only grows, by well-formed items), and the reader turns that `<c>`
+    back into the SAME cell — coordinate, kind, value (text / runs / number token / boolean / error code),
+    formula text, styled flag — against any string table that extends the writer's (i.e. whatever later cells
+    register).  "The same cell" is `Cell.resolved F c`: `c` itself unless its value is lazy (`C01_resolved`), and
+    for a lazy value the cell holding what `get_value_lazy` would make of the text, formula kept.
+    `cellOK` excludes exactly: a rich text with zero runs (see `C01_rich_no_runs_fails`). -/
 theorem C01_cell_roundtrip (F : NumFmt) (hF : F.Sound) (tbl : Table) (c : Cell F.Num) (hc : cellOK F c = true) :
     ∃ tbl' ox, writeTo F tbl c = some (tbl', ox) ∧
       (∃ ext, tbl' = tbl ++ ext ∧ ∀ it ∈ ext, ItemOK it) ∧
       (blankUnstyled F c = true → ox = none) ∧
       (blankUnstyled F c = false → ∃ x, ox = some x ∧
-        ∀ sst : Table, sst.length < 18446744073709551616 → Extends sst tbl' → readCell F sst x = some c) :=
+        ∀ sst : Table, sst.length < 18446744073709551616 → Extends sst tbl' →
+          readCell F sst x = some (Cell.resolved F c)) :=
   writeTo_readCell F hF tbl c hc
+
+/-- What `Cell.resolved` is: the cell itself unless its value is an unresolved lazy one; then the same cell
+    (coordinate, formula, style) holding `guess_typed_data` of the text — the conversion `get_value_lazy` performs:
+    "" → blank, TRUE / FALSE (any case) → boolean, an error code (any case) → error, a text `f64::from_str`
+    accepts → number, anything else → that text. -/
+theorem C01_resolved (F : NumFmt) (c : Cell F.Num) :
+    ((∀ s, c.raw ≠ .lazy s) → Cell.resolved F c = c) ∧
+    (∀ s, c.raw = .lazy s → Cell.resolved F c = { c with raw := guess F s }) ∧
+    (∀ s, guess F s = .empty ∨ (∃ b, guess F s = .bool b) ∨ (∃ e, guess F s = .err e) ∨ (∃ n, guess F s = .num n) ∨
+      guess F s = .str s) := by
+  refine ⟨fun h => resolved_of_not_lazy F ?_, fun s h => by simp [Cell.resolved, h, resolveRaw], guess_cases F⟩
+  cases hr : c.raw <;> first | rfl | exact absurd hr (h _)
 
 /-- The index a text / rich-text cell is written with resolves to its own item in the table as written
     (the interning lemma: find-or-append returns an index that holds the item), and that item reads back
@@ -81,7 +97,7 @@ theorem C01_index_resolves (tbl : Table) (it : Item) (h : ItemOK it) :
 
 /-- Saving and reloading a workbook (any number of sheets; per sheet the cells in the order the row loop
     emits them) gives back every sheet with exactly its non-blank-or-styled cells, each equal to the
-    stored one, in the same order.  `light` is the writer flavour (`write_writer` / `write_writer_light`):
+    stored one (a lazy value as the typed value it stands for: `normalize`, `C01_normalize`), in the same order.  `light` is the writer flavour (`write_writer` / `write_writer_light`):
     the two differ only in the zip compression method, which no part of the cell codec sees, so the
     statement holds for both by construction.  The side condition bounds the number of distinct strings
     by the range of `usize` (the reader parses the index with `parse::<usize>()`). -/
@@ -95,19 +111,21 @@ theorem C01_roundtrip (F : NumFmt) (hF : F.Sound) (light : Bool) (sheets : List 
 theorem C01_light_same (F : NumFmt) (sheets : List (List (Cell F.Num))) :
     writeBook F true sheets = writeBook F false sheets := rfl
 
-/-- What "non-blank" means: `normalize` drops exactly the cells whose value is empty, that have no
-    formula and whose style is empty (`Cell::write_to`'s early return), keeps every other cell unchanged
-    and in order. -/
+/-- What "non-blank" means: `normalize` drops exactly the cells whose (resolved) value is empty, that have no
+    formula and whose style is empty (`Cell::write_to`'s early return), keeps every other cell in order, unchanged
+    except that a lazy value is replaced by the typed value it stands for (`C01_resolved`). -/
 theorem C01_normalize (F : NumFmt) (sheets : List (List (Cell F.Num))) :
     (normalize F sheets).length = sheets.length ∧
     (∀ (i : Nat) (s : List (Cell F.Num)), sheets[i]? = some s →
-      ∃ s', (normalize F sheets)[i]? = some s' ∧ s'.Sublist s ∧
-        ∀ c, c ∈ s' ↔ (c ∈ s ∧ ¬ (c.raw = .empty ∧ c.formula = none ∧ c.styled = false))) := by
+      ∃ kept : List (Cell F.Num), kept.Sublist s ∧
+        (∀ c, c ∈ kept ↔ (c ∈ s ∧ ¬ (resolveRaw F c.raw = .empty ∧ c.formula = none ∧ c.styled = false))) ∧
+        (normalize F sheets)[i]? = some (kept.map (Cell.resolved F))) := by
   refine ⟨by simp [normalize], ?_⟩
   intro i s hi
-  refine ⟨s.filter (fun c => !blankUnstyled F c), by simp [normalize, hi], List.filter_sublist, ?_⟩
+  refine ⟨s.filter (fun c => !blankUnstyled F c), List.filter_sublist, ?_, by simp [normalize, hi]⟩
   intro c
-  simp only [List.mem_filter, blankUnstyled, Bool.not_eq_true', Bool.and_eq_false_imp, Bool.and_eq_true,
+  have hbu : blankUnstyled F c = ((resolveRaw F c.raw).isEmpty && c.formula.isNone && !c.styled) := rfl
+  simp only [List.mem_filter, hbu, Bool.not_eq_true', Bool.and_eq_false_imp, Bool.and_eq_true,
     Bool.not_eq_eq_eq_not, Bool.not_true]
   constructor
   · rintro ⟨hc, hk⟩
@@ -123,7 +141,7 @@ theorem C01_normalize (F : NumFmt) (sheets : List (List (Cell F.Num))) :
     | false =>
       exfalso; apply hk
       refine ⟨?_, by simpa using h2, hst⟩
-      cases hr : c.raw <;> simp [hr, RawValue.isEmpty] at h1 ⊢
+      cases hr : resolveRaw F c.raw <;> simp [hr, RawValue.isEmpty] at h1 ⊢
 
 /-! ### one sheet, from the cell store to the reloaded cells (uses C10) -/
 
@@ -138,18 +156,18 @@ def cellsOf (F : NumFmt) (body : Nat → RawValue F.Num × Option (List Char)) (
     exactly once, in strictly ascending (row, column) order (`C10_saved`); the package written from them
     reads back as exactly the cells that are not blank-and-unstyled, each equal to the stored cell and
     therefore at its own coordinate; those coordinates are strictly ascending, so no reloaded cell
-    overwrites another in the reader's coordinate-keyed store. -/
+    overwrites another in the reader's coordinate-keyed store.  `hval`: no rich text with zero runs. -/
 theorem C01_sheet_roundtrip (F : NumFmt) (hF : F.Sound) (light : Bool) (s : Sheet) (hs : Coherent s)
     (body : Nat → RawValue F.Num × Option (List Char))
     (hgrid : ∀ k ∈ keysOf s, 1 ≤ k.2 ∧ k.2 ≤ 16384 ∧ 1 ≤ k.1 ∧ k.1 ≤ 1048576)
-    (hval : ∀ m ∈ sortedCells s, valueOK F (body m.val).1 (body m.val).2 = true) :
+    (hval : ∀ m ∈ sortedCells s, rawOK F (body m.val).1 = true) :
     cellsOf F body (emitted s) = cellsOf F body (sortedCells s) ∧
     (cellsOf F body (emitted s)).map (fun c => (c.row, c.col)) = s.rowIdx ∧
     SSorted s.rowIdx ∧
     ∃ b, writeBook F light [cellsOf F body (emitted s)] = some b ∧
       (b.sst.length < 18446744073709551616 →
-        readBook F b = some [(cellsOf F body (emitted s)).filter (keep F)] ∧
-        (((cellsOf F body (emitted s)).filter (keep F)).map (fun c => (c.row, c.col))).Sublist s.rowIdx) := by
+        readBook F b = some [((cellsOf F body (emitted s)).filter (keep F)).map (Cell.resolved F)] ∧
+        ((((cellsOf F body (emitted s)).filter (keep F)).map (Cell.resolved F)).map (fun c => (c.row, c.col))).Sublist s.rowIdx) := by
   obtain ⟨e1, e2, _⟩ := Umya.Thm.C10.C10_saved s hs
   have hkeys : (cellsOf F body (emitted s)).map (fun c => (c.row, c.col)) = s.rowIdx := by
     rw [e1, ← e2]; simp [cellsOf, List.map_map, Function.comp_def]
@@ -170,7 +188,7 @@ theorem C01_sheet_roundtrip (F : NumFmt) (hF : F.Sound) (light : Bool) (s : Shee
   · have h2 := hr hlen
     simp only [normalize, List.map_cons, List.map_nil] at h2
     exact h2
-  · rw [← hkeys]
+  · rw [← hkeys, List.map_map]
     exact List.Sublist.map _ List.filter_sublist
 
 /-! ### what does not survive (known findings; the harness replays these witnesses) -/
@@ -210,22 +228,34 @@ theorem natFmt_sound : natFmt.Sound where
   fmt_ne := fun n => decDigits_ne_nil n
   fmt_chars := fun n => decDigits_numChar n
 
-/-- A value stored with `set_value_lazy` and never resolved is written as an empty `<v>` without `t=`,
-    which the reader types as the empty value: the cell reloads blank. -/
-theorem C01_lazy_fails :
-    writeV natFmt [] (dataTypeOf natFmt (.lazy ['a']) none) (.lazy ['a']) = ([], .text []) ∧
-    tAttrOf (dataTypeOf natFmt (.lazy ['a']) none) = [] ∧
-    readV natFmt [] [] (.text []) none = some (.empty, none) := by
-  decide
+/-- Repaired (fix 6; was the witness `C01_lazy_fails`): a value stored with `set_value_lazy` and never resolved
+    is written as the typed value it stands for — lazy "a" as the text "a" — and reads back as it, from any table
+    that extends the writer's. -/
+theorem C01_lazy_repaired :
+    ∃ tbl' x, writeTo natFmt [] { col := 1, row := 1, raw := .lazy ['a'] } = some (tbl', some x) ∧
+      ∀ sst : Table, sst.length < 18446744073709551616 → Extends sst tbl' →
+        readCell natFmt sst x = some { col := 1, row := 1, raw := .str ['a'] } := by
+  obtain ⟨tbl', ox, hw, _, _, hk⟩ :=
+    C01_cell_roundtrip natFmt natFmt_sound [] { col := 1, row := 1, raw := .lazy ['a'] } (by decide)
+  obtain ⟨x, rfl, hr⟩ := hk (by decide)
+  exact ⟨tbl', x, hw, hr⟩
 
-/-- A rich text cached under a formula is written `t="str"` with its plain text: the text and the
-    formula survive, the kind reloads as plain text (the runs are lost). -/
-theorem C01_rich_under_formula_fails :
-    writeV natFmt [] (dataTypeOf natFmt (.rich [{ text := ['a'] }, { text := ['b'], font := some 1 }]) (some ['A', '1']))
-        (.rich [{ text := ['a'] }, { text := ['b'], font := some 1 }]) = ([], .text ['a', 'b']) ∧
-    tAttrOf (dataTypeOf natFmt (.rich [{ text := ['a'] }, { text := ['b'], font := some 1 }]) (some ['A', '1'])) = tSTR ∧
-    readV natFmt [] tSTR (.text ['a', 'b']) (some ['A', '1']) = some (.str ['a', 'b'], some ['A', '1']) := by
-  decide
+/-- Repaired (fix 5; was the witness `C01_rich_under_formula_fails`): a rich text cached under a formula is
+    written with the data type `s` (a shared-string item next to the `<f>`), and reads back as the same runs under
+    the same formula. -/
+theorem C01_rich_under_formula_repaired :
+    tAttrOf (dataTypeOf natFmt (.rich [{ text := ['a'] }, { text := ['b'], font := some 1 }]) (some ['A', '1'])) = tS ∧
+    ∃ tbl' x, writeTo natFmt [] { col := 1, row := 1, raw := .rich [{ text := ['a'] }, { text := ['b'], font := some 1 }], formula := some ['A', '1'] }
+        = some (tbl', some x) ∧
+      ∀ sst : Table, sst.length < 18446744073709551616 → Extends sst tbl' →
+        readCell natFmt sst x
+          = some { col := 1, row := 1, raw := .rich [{ text := ['a'] }, { text := ['b'], font := some 1 }], formula := some ['A', '1'] } := by
+  refine ⟨by decide, ?_⟩
+  obtain ⟨tbl', ox, hw, _, _, hk⟩ :=
+    C01_cell_roundtrip natFmt natFmt_sound []
+      { col := 1, row := 1, raw := .rich [{ text := ['a'] }, { text := ['b'], font := some 1 }], formula := some ['A', '1'] } (by decide)
+  obtain ⟨x, rfl, hr⟩ := hk (by decide)
+  exact ⟨tbl', x, hw, hr⟩
 
 /-- A rich text with zero runs is written as an `<si>` without `<t>` and without `<r>`; read back, that
     item has neither text nor runs, and such an item leaves the cell's value empty: the cell reloads blank. -/
@@ -247,7 +277,17 @@ def demo : List (List (Cell natFmt.Num)) :=
    [{ col := 1, row := 1, raw := .rich [{ text := [' ', 'a'], font := some 1 }, { text := [] }] },
     { col := 2, row := 1, raw := .bool true, formula := some [] },
     { col := 3, row := 1, raw := .str [' ', '&', '<', '\r', '\n', ' '] },
-    { col := 4, row := 1, raw := .str [' ', 'x', ' '], formula := some ['A', '1'] }]]
+    { col := 4, row := 1, raw := .str [' ', 'x', ' '], formula := some ['A', '1'] },
+    -- newly covered (fix 5): a formula with a two-run rich cached value
+    { col := 5, row := 1, raw := .rich [{ text := ['x', ' '] }, { text := ['y'], font := some 2 }], formula := some ['B', '1', '&', 'C', '1'] },
+    -- newly covered (fix 6): lazy "123", "TRUE", "abc", "" — without and with a formula
+    { col := 6, row := 1, raw := .lazy ['1', '2', '3'] },
+    { col := 7, row := 1, raw := .lazy ['T', 'R', 'U', 'E'] },
+    { col := 8, row := 1, raw := .lazy ['a', 'b', 'c'] },
+    { col := 9, row := 1, raw := .lazy [] },
+    { col := 10, row := 1, raw := .lazy ['1', '2', '3'], formula := some ['A', '1'] },
+    { col := 11, row := 1, raw := .lazy ['t', 'r', 'u', 'e'], formula := some ['A', '1'] },
+    { col := 12, row := 1, raw := .lazy ['a', 'b', 'c'], formula := some ['A', '1'] }]]
 
 example : ∀ s ∈ demo, ∀ c ∈ s, cellOK natFmt c = true := by decide
 
@@ -255,7 +295,28 @@ example : ∃ b, writeBook natFmt true demo = some b ∧
     (b.sst.length < 18446744073709551616 → readBook natFmt b = some (normalize natFmt demo)) :=
   C01_roundtrip natFmt natFmt_sound true demo (by decide)
 
-example : (normalize natFmt demo).map List.length = [4, 4] := by decide
+example : (normalize natFmt demo).map List.length = [4, 11] := by decide
+
+/-- what the newly covered cells reload as: the two runs under the formula; 123 as a number, TRUE as a boolean,
+    "abc" as text, lazy "" not at all; the same under a formula, formula kept -/
+example : ((normalize natFmt demo)[1]?.map (fun s => (s.drop 4).map (fun c => (c.col, c.raw, c.formula)))) = some
+    [(5, .rich [{ text := ['x', ' '] }, { text := ['y'], font := some 2 }], some ['B', '1', '&', 'C', '1']),
+     (6, .num (123 : Nat), none), (7, .bool true, none), (8, .str ['a', 'b', 'c'], none),
+     (10, .num (123 : Nat), some ['A', '1']), (11, .bool true, some ['A', '1']), (12, .str ['a', 'b', 'c'], some ['A', '1'])] := by
+  decide
+
+/-- `C01_cell_roundtrip` on the newly covered inputs: the hypotheses hold, the cells are written, and `Cell.resolved`
+    is the typed cell -/
+example : cellOK natFmt { col := 5, row := 1, raw := .rich [{ text := ['x'] }, { text := ['y'], font := some 2 }], formula := some ['B', '1'] } = true ∧
+    cellOK natFmt { col := 6, row := 1, raw := .lazy ['1', '2', '3'] } = true ∧
+    blankUnstyled natFmt { col := 6, row := 1, raw := .lazy ['1', '2', '3'] } = false ∧
+    Cell.resolved natFmt { col := 6, row := 1, raw := .lazy ['1', '2', '3'] } = { col := 6, row := 1, raw := .num (123 : Nat) } ∧
+    Cell.resolved natFmt { col := 7, row := 1, raw := .lazy ['T', 'R', 'U', 'E'] } = { col := 7, row := 1, raw := .bool true } ∧
+    Cell.resolved natFmt { col := 8, row := 1, raw := .lazy ['a', 'b', 'c'] } = { col := 8, row := 1, raw := .str ['a', 'b', 'c'] } ∧
+    Cell.resolved natFmt { col := 12, row := 1, raw := .lazy ['a', 'b', 'c'], formula := some ['A', '1'] }
+      = { col := 12, row := 1, raw := .str ['a', 'b', 'c'], formula := some ['A', '1'] } ∧
+    blankUnstyled natFmt { col := 9, row := 1, raw := .lazy [] } = true := by
+  decide
 
 /-- `C01_cell_roundtrip`: a padded text cell under a formula at XFD1048576 -/
 example : cellOK natFmt { col := 16384, row := 1048576, raw := .str [' ', 'x', ' '], formula := some ['A', '1', ' '] } = true := by
